@@ -58,10 +58,12 @@ class SECoPError(RuntimeError):
     def __str__(self):
         return self.format(True)
 
-    def format(self, stripped):
+    def format(self, stripped, method=None):
         """format with info about raising methods
 
         :param stripped: strip last method.
+        :param method: an additional (outermost) raising method to be shown, without
+            modifying self.raising_methods
         :return: the formatted error message
 
         Use stripped=True (or str()) for the following cases, as the last method can be derived from the context:
@@ -72,7 +74,9 @@ class SECoPError(RuntimeError):
 
         Use stripped=False for the log file, as the related parameter is not known
         """
-        mlist = self.raising_methods
+        mlist = list(self.raising_methods or ())
+        if method:
+            mlist.append(method)
         if mlist and stripped:
             mlist = mlist[:-1]  # do not pop, as this would change self.raising_methods
         prefix = '' if self.name2class.get(self.name) == type(self) else type(self).__name__
